@@ -310,3 +310,60 @@ def discharge(jobs, workers=None):
         for k, *rest in ex.map(solve_one, jobs, chunksize=4):
             out[k] = tuple(rest)
     return out
+
+
+# ------------------------------------------------------------------------------------------------ in-memory discharge
+_INSTANCES: list = []
+
+
+def _solve_index(i):
+    """runs in a forked child: the z3 objects of the parent are inherited, nothing is serialised unless the fast
+    attempt does not decide the query"""
+    import z3
+
+    key, pc, goal = _INSTANCES[i]
+    t0 = time.time()
+    s = z3.Solver()
+    s.set("timeout", min(1500, Z3_TIMEOUT_MS))
+    for c in pc:
+        s.add(c)
+    s.add(z3.Not(goal))
+    r = s.check()
+    if r == z3.unsat:
+        return key, "unsat", "z3", time.time() - t0, "", ""
+    smt2 = s.to_smt2()
+    if r == z3.sat:
+        try:
+            import json
+
+            model = json.dumps(model_dict(s.model(), z3))
+        except Exception:
+            model = ""
+        return key, "sat", "z3", time.time() - t0, model, smt2
+    k, verdict, solver, secs, model = solve_one((key, smt2))
+    return key, verdict, solver, time.time() - t0, model, smt2
+
+
+def discharge_objects(instances, workers=None):
+    """instances: list of (key, pc list, goal). Returns dict key -> (verdict, solver, seconds, model, smt2)."""
+    global _INSTANCES
+    out = {}
+    if not instances:
+        return out
+    workers = workers or min(14, os.cpu_count() or 4)
+    _INSTANCES = instances
+    try:
+        if len(instances) < 8 or workers <= 1:
+            for i in range(len(instances)):
+                k, *rest = _solve_index(i)
+                out[k] = tuple(rest)
+            return out
+        import multiprocessing as mp
+
+        ctx = mp.get_context("fork")
+        with ProcessPoolExecutor(max_workers=workers, mp_context=ctx) as ex:
+            for k, *rest in ex.map(_solve_index, range(len(instances)), chunksize=16):
+                out[k] = tuple(rest)
+        return out
+    finally:
+        _INSTANCES = []
